@@ -404,8 +404,30 @@ def prof_diff(rng, n, tier, persisted=None):
     """C06 / C07 / C15: ordered pairs of trees and their entry and link diffs"""
     out = []
     for i in range(n):
+        if persisted and rng.random() < 0.08:
+            # a tall tree (branch factor 2, consecutive integers) with a single change
+            h = H("dif%d" % i, rng, cache="none", bf=2, kind=0, vt="int")
+            a = h.new()
+            lo = rng.randint(1, 40); hi = lo + rng.choice([100, 200, 300])
+            for k in range(lo, hi):
+                h.ins(a, "i:%d" % k, hx(b"1"))
+            a = h.load(h.mkroot(a))
+            b = h.clone(a)
+            k = rng.randint(lo, hi - 1)
+            c = rng.random()
+            if c < 0.5:
+                h.ins(b, "i:%d" % k, hx(b"2"))
+            elif c < 0.75:
+                h.dele(b, "i:%d" % k)
+            else:
+                h.ins(b, "i:%d" % rng.choice([lo - 1, hi, hi + 7]), hx(b"2"))
+            h.mkroot(b); b = h.load(h.nr - 1)
+            h.tags.add("tall"); h.tags.add("persisted")
+            h.ops += ["difflinks %d %d" % (b, a), "diff %d %d" % (b, a), "difflinks %d %d" % (a, b)]
+            out.append(h)
+            continue
         h = H("dif%d" % i, rng, cache="none")
-        rel = rng.choice(["descendant", "descendant", "sibling", "unrelated", "empty-old", "empty-new", "emptied", "nil-old", "same", "heights"])
+        rel = rng.choice(["descendant", "descendant", "sibling", "unrelated", "unrelated-stores", "empty-old", "empty-new", "emptied", "nil-old", "same", "heights"])
         per = persisted if persisted is not None else rng.random() < 0.6
         a = h.new()
         build_tree(h, a, rng.choice([0, 1, 3, 10, 25, 60]) if rel not in ("heights",) else rng.choice([1, 2, 3]))
@@ -419,6 +441,12 @@ def prof_diff(rng, n, tier, persisted=None):
             b = h.clone(a); mutate(h, b, rng.randint(1, 8)); a2 = h.clone(a); mutate(h, a2, rng.randint(1, 8)); a = a2
         elif rel == "unrelated":
             b = h.new(); build_tree(h, b, rng.choice([1, 3, 10, 30]))
+        elif rel == "unrelated-stores":
+            # the two versions live in different stores (a peer diffing against a replica's tree)
+            b = h.new(store=1); build_tree(h, b, rng.choice([1, 3, 10, 30]))
+            if rng.random() < 0.5:
+                for k in sorted(h.ref[a], key=key_sort)[: rng.randint(0, 6)]:
+                    h.ins(b, k, h.ref[a][k])
         elif rel == "empty-old":
             b = a; a = h.new()
         elif rel == "empty-new":
@@ -442,7 +470,7 @@ def prof_diff(rng, n, tier, persisted=None):
             if rng.random() < 0.5:
                 if a is not None:
                     a = h.load(h.nr - 2)
-                b = h.load(h.nr - 1)
+                b = h.load(h.nr - 1, store=1 if rel == "unrelated-stores" else 0)
         h.tags.add(rel); h.tags.add("persisted" if per else "memory")
         old = "-" if a is None else str(a)
         h.ops.append("diff %d %s" % (b, old))
@@ -520,9 +548,11 @@ def prof_malformed(rng, n, tier):
     """C19: valid roots, then perturbed Root fields / loader configuration / top-node bytes"""
     out = []
     for i in range(n):
-        h = H("mal%d" % i, rng, cache="none", kind=rng.choice([0, 0, 1, 2, 5]))
+        h = H("mal%d" % i, rng, cache=rng.choice(["none", "none", "big"]), kind=rng.choice([0, 0, 1, 2, 5]))
         t = h.new()
-        build_tree(h, t, rng.choice([2, 5, 15, 40]))
+        build_tree(h, t, rng.choice([0, 1, 2, 5, 15, 40]))
+        if rng.random() < 0.15:
+            h.drain(t)
         r = h.mkroot(t)
         x = h.load(r); h.observe(x)                      # the guard is not vacuous: the right config loads
         for _ in range(rng.randint(2, 6)):
